@@ -189,8 +189,14 @@ def gen_plan(rng, tier, i):
         for r in recs:
             r["name"] = None
     else:
+        import random
+
+        child = random.Random("c12-child:" + repr([r["norad"] for r in recs]))  # added after the first version: own generator
         for r in recs:
             r["name"] = r["name"] or "SAT " + str(r["norad"])
+            if child.random() < 0.2:
+                # an object known by its designation, or whose name starts with the digit of a line number (without being a TLE line)
+                r["name"] = child.choice(["2019-012B", "1998-067C", "1KUNS-PF", "2001 DEB", "1999-025DZZ", "21 LUTETIA"])
     ops = []
     # which entries get the exhaustive per-entry enumeration
     for k in rng.sample(range(n), n if tier == "thorough" else min(2, n)):  # thorough: the fault space of every entry
